@@ -8,6 +8,7 @@ import (
 	"os"
 	"os/exec"
 	"path/filepath"
+	"regexp"
 	"sort"
 	"strconv"
 	"strings"
@@ -292,6 +293,14 @@ func cmdCheck(args []string) int {
 	}
 	known := loadKnownFindings()
 	baseline := loadBaseline(id)
+	baseSites := map[string]bool{} // baseline obligations with the call-site ordinal removed
+	baseFuncs := map[string]bool{} // functions that have obligations in the baseline
+	for b := range baseline {
+		baseSites[stripSite(b)] = true
+		if i := strings.Index(b, "/"); i > 0 {
+			baseFuncs[b[:i]] = true
+		}
+	}
 	if *updateBaseline && (len(contractErrs) > 0 || len(unbound) > 0 || len(unsupported) > 0) {
 		// never re-baseline over a contract that no longer binds: that would silently drop its obligations
 		for _, e := range contractErrs {
@@ -368,6 +377,22 @@ func cmdCheck(args []string) int {
 			continue
 		}
 		inBase := baseline[oid]
+		why := ""
+		if !inBase {
+			// (a) the ordinal of a call site (@N) moves when a call is added or removed before it: a precondition of the
+			//     same callee that was discharged at its call sites in this function on the unchanged tree is the same obligation
+			if n := stripSite(oid); n != oid && baseSites[n] {
+				inBase, why = true, " (call site renumbered)"
+			}
+		}
+		if !inBase && s.Status != "sat" {
+			// (b) a function all of whose run-time-panic obligations were discharged on the unchanged tree was proved free of
+			//     panics; a new panic site in it that cannot be proved safe breaks that (the implicit obligations of a partial
+			//     contract are assumptions and stay undecided)
+			if c := p.contract[s.Func]; c != nil && !c.Partial && strings.HasPrefix(s.Kind, "nopanic") && baseFuncs[s.Func] {
+				inBase, why = true, " (new panic site in a function proved panic-free on the unchanged tree)"
+			}
+		}
 		if s.Status == "sat" || inBase {
 			violations++
 			rp, confirmed := replayObligation(p, replayDir, s, id)
@@ -375,7 +400,7 @@ func cmdCheck(args []string) int {
 			if confirmed {
 				suffix = ""
 			}
-			violationLines = append(violationLines, fmt.Sprintf("VIOLATION property=%s replay=%s obligation=%s status=%s%s", id, rp, oid, s.Status, suffix))
+			violationLines = append(violationLines, fmt.Sprintf("VIOLATION property=%s replay=%s obligation=%s status=%s%s%s", id, rp, oid, s.Status, why, suffix))
 			samples = append(samples, map[string]interface{}{"obligation": oid, "status": s.Status, "solver": s.Solver, "clause": trunc(s.Text, 160), "replay": rp, "confirmed_on_real_code": confirmed})
 		} else {
 			undecided = append(undecided, fmt.Sprintf("%s (%s)", oid, s.Status))
@@ -707,3 +732,8 @@ func runGoReplay(path string) (reproduced bool, output string) {
 	s := string(out)
 	return strings.Contains(s, "REPRODUCED") || (race && strings.Contains(s, "WARNING: DATA RACE")), trunc(s, 6000)
 }
+
+var siteSuffix = regexp.MustCompile(`@\d+$`)
+
+// stripSite removes the call-site ordinal of a precondition obligation (pre.<callee>.<label>@N).
+func stripSite(oid string) string { return siteSuffix.ReplaceAllString(oid, "@") }
